@@ -433,7 +433,21 @@ def elements_of(kind, lines):
                 except ValueError:
                     pass
     txt = "\n".join(lines)
-    if kind in ("equilibrium_phases", "gas_phase", "solid_solutions"):
+    if kind == "gas_phase":
+        # a gas component counts when it holds moles (a component left at 0 mol holds none of its elements)
+        comp = None
+        for ln in lines:
+            w = ln.split()
+            if w and w[0] == "-component" and len(w) > 1:
+                comp = w[1]
+            elif w and w[0] == "-moles" and comp is not None and len(w) > 1:
+                try:
+                    if float(w[1]) > 0 and comp in MINERALS:
+                        els.update(MINERALS[comp])
+                except ValueError:
+                    pass
+                comp = None
+    if kind in ("equilibrium_phases", "solid_solutions"):
         for p, es in MINERALS.items():
             if re.search(r"(?m)^\s*(-component|-phase_name|-name)?\s*%s\s*$" % re.escape(p), txt) or re.search(r"(?m)^\s*-component\s+%s\b" % re.escape(p), txt):
                 els.update(es)
@@ -645,7 +659,11 @@ def run_case(ctx, case):
             ncmp += 1
             miss = sorted(els - set(comps))
             if miss:
-                bad("components-missing", "component list %s lacks %s present in a defined reactant (instance %s)" % (comps, miss, inst), i)
+                where = []
+                for k, lines in d.items():
+                    if k[1] >= 0 and (elements_of(k[0], lines) & set(miss)):
+                        where.append("%s %d: %s" % (k[0], k[1], [ln.strip() for ln in lines if ln.split() and ln.split()[0].split("(")[0] in miss][:3]))
+                bad("components-missing", "component list %s lacks %s present in a defined reactant (instance %s): %s" % (comps, miss, inst, where[:4]), i)
             prev[inst] = (d, model)
         if stop:
             break
